@@ -27,6 +27,7 @@ func (*BytecodeCompiler).compileLoopExpressionNode
   ensures ghostdef sticky: old(ghost(dead, c)) == 1 ==> ghost(dead, c) == 1
   ensures ghostdef mono: clen(c) >= old(clen(c))
   ensures ghostdef jkeep: forall k mathint :: jkey(c, 0) <= k && k < jkey(c, old(clen(c))) ==> ghost(jdepth, k) == old(ghost(jdepth, k))
+  ensures ghostdef lkeep: forall s *bytecodeLoopJumpSet :: old(allocated(s)) ==> s.returnsValueFromLastIteration == old(s.returnsValueFromLastIteration)
   assert before emitLoop#1: c.additionalAbortChecks ==> c.lastOpCode == bytecode.CHECK_ABORT
 
 func (*BytecodeCompiler).compileWhileExpressionNode
@@ -39,6 +40,7 @@ func (*BytecodeCompiler).compileWhileExpressionNode
   ensures ghostdef sticky: old(ghost(dead, c)) == 1 ==> ghost(dead, c) == 1
   ensures ghostdef mono: clen(c) >= old(clen(c))
   ensures ghostdef jkeep: forall k mathint :: jkey(c, 0) <= k && k < jkey(c, old(clen(c))) ==> ghost(jdepth, k) == old(ghost(jdepth, k))
+  ensures ghostdef lkeep: forall s *bytecodeLoopJumpSet :: old(allocated(s)) ==> s.returnsValueFromLastIteration == old(s.returnsValueFromLastIteration)
   assert before emitLoop#1: c.additionalAbortChecks ==> c.lastOpCode == bytecode.CHECK_ABORT
 
 func (*BytecodeCompiler).modifierWhileExpression
@@ -65,6 +67,7 @@ func (*BytecodeCompiler).compileUntilExpressionNode
   ensures ghostdef sticky: old(ghost(dead, c)) == 1 ==> ghost(dead, c) == 1
   ensures ghostdef mono: clen(c) >= old(clen(c))
   ensures ghostdef jkeep: forall k mathint :: jkey(c, 0) <= k && k < jkey(c, old(clen(c))) ==> ghost(jdepth, k) == old(ghost(jdepth, k))
+  ensures ghostdef lkeep: forall s *bytecodeLoopJumpSet :: old(allocated(s)) ==> s.returnsValueFromLastIteration == old(s.returnsValueFromLastIteration)
   assert before emitLoop#1: c.additionalAbortChecks ==> c.lastOpCode == bytecode.CHECK_ABORT
 
 func (*BytecodeCompiler).compileForIn
@@ -81,10 +84,17 @@ func (*BytecodeCompiler).compileNumericFor
   requires wfC(c)
   assert before emitLoop#1: c.additionalAbortChecks ==> c.lastOpCode == bytecode.CHECK_ABORT
 
+// the jump set of the loop a break/continue refers to: one of the sets on the compiler's list
+// (or nil, with a failure recorded); looking it up changes nothing but the diagnostic list
+func (*BytecodeCompiler).findLoopJumpSet
+  trusted
+  assigns all(diagnostic.SyncDiagnosticList).DiagnosticList
+  ensures ret == nil || allocated(ret)
+
 // `continue`: the jump is emitted with the LOOP opcode and later patched into LOOP (backward) or
 // JUMP (forward) by patchLoopJumps; when it goes backward it IS a back edge
 func (*BytecodeCompiler).compileContinueExpressionNode
-  props C33
+  props C33 C29
   nosafety
   partial
   requires wfC(c)
@@ -93,7 +103,12 @@ func (*BytecodeCompiler).compileContinueExpressionNode
   ensures ghostdef sticky: old(ghost(dead, c)) == 1 ==> ghost(dead, c) == 1
   ensures ghostdef mono: clen(c) >= old(clen(c))
   ensures ghostdef jkeep: forall k mathint :: jkey(c, 0) <= k && k < jkey(c, old(clen(c))) ==> ghost(jdepth, k) == old(ghost(jdepth, k))
+  ensures ghostdef lkeep: forall s *bytecodeLoopJumpSet :: old(allocated(s)) ==> s.returnsValueFromLastIteration == old(s.returnsValueFromLastIteration)
   assert before emitJump#1: c.additionalAbortChecks ==> c.lastOpCode == bytecode.CHECK_ABORT
+  // operand stack (C29): when the jump sequence starts, a loop that keeps the value of its last
+  // iteration has exactly that value on top (the given one, or nil), every other loop nothing —
+  // the value of `continue v` is compiled and popped
+  assert before countFinallyInLoop#1: (!loop.returnsValueFromLastIteration ==> ghost(depth, c) == old(ghost(depth, c)) || ghost(dead, c) == 1) && (loop.returnsValueFromLastIteration ==> ghost(depth, c) == old(ghost(depth, c)) + 1 || ghost(dead, c) == 1)
   // a continue that first runs `finally` blocks goes back to the loop start as well (the VM
   // jumps there after the last handler): the check sits in front of the whole sequence
   assert before emitLoadValue#1: c.additionalAbortChecks ==> c.lastOpCode == bytecode.CHECK_ABORT
